@@ -49,6 +49,17 @@ CHECKS['C08'] = dict(
     technique='machine-checked invariant proof (Coq) over a hand-written model + exhaustive small-scope differential correspondence',
 )
 
+CHECKS['C19'] = dict(
+    text=('Proof. Worker.active_children, Worker.register_child and the registration guard of Worker.__init__ are regenerated into Gallina on '
+          'every run; for every history of creations (run / not-run / failing start), deaths, restarts and queries the theorem shows each query '
+          'yields exactly the live workers, each once, leaves no dead worker in the registry (size bounded by the number of live workers whatever '
+          'the history length) and that this persists. Histories are also replayed on real thread / persistent-thread workers against the model.'),
+    design='5/C19',
+    note=('Atomicity of prune+copy relies on the `with Worker._children_lock` block (the translator accepts nothing else); is_alive() is an oracle of '
+          'the model; process/remote kinds are not spawned by this check (the registry code is kind-independent). ' + COMMON_NOTE),
+    technique='machine-checked proof (Coq) over code regenerated from the source + differential correspondence on histories',
+)
+
 NOT_YET = {}
 
 
